@@ -7,7 +7,7 @@ import sys, os, re, subprocess, json, shutil, glob
 ID, n = sys.argv[1], sys.argv[2]
 checks = sys.argv[3:] or [ID]
 ROUND = os.environ.get("ROUND", "1")
-src = f"/tmp/seed/{ID}/OUT/{n}" if ROUND == "1" else f"/tmp/seed/{ID}.out/{n}"
+src = f"/tmp/seed/{ID}/OUT/{n}" if ROUND == "1" else (f"/tmp/seed/{ID}.out/{n}" if ROUND == "2" else f"/tmp/seed{ROUND}/{ID}.out/{n}")
 env = dict(os.environ, GOFLAGS="-mod=mod", GOPROXY="off", GOSUMDB="off", GOTOOLCHAIN="local")
 def sh(cmd, cwd=None, timeout=1200):
     p = subprocess.run(cmd, shell=True, cwd=cwd, env=env, capture_output=True, text=True, timeout=timeout)
@@ -66,7 +66,7 @@ confirmed = res.get("demo_with") == "FAIL" and res.get("demo_without") == "PASS"
 meta["confirmed"] = confirmed
 meta["confirmation"] = res
 # run my checks in a scratch copy
-race = "0" if any(c in ("C09", "C10", "C11") for c in checks) else "1"
+race = "0" if any(c in ("C09", "C10", "C11", "C20") for c in checks) else "1"
 rc, out = sh(f"BASELINE=0 VERIF_SKIP_RACE_BUILD={race} /verif/tools/scratchrun.sh seed{ROUND}-{ID}-{n} {src}/patch.diff {' '.join(checks)}", timeout=7200)
 print(out.strip())
 meta["checks_run"] = out.strip().splitlines()
